@@ -1,5 +1,6 @@
 ---- MODULE MC_q_dev ----
 EXTENDS MCOFWire
 TheCases == Deviations(TopKindsOF \ StatsKinds)
+TheRCases == {}
 TheAround == AroundOne
 ====
